@@ -26,6 +26,9 @@ def run_plain(case, ambient, random_state, record=1, scen=None):
     c = copy.deepcopy(case)
     c["seed"] = ambient
     c["cfg"]["random_state"] = random_state
+    if random_state is not None and case.get("rs_type"):
+        # the seed arrives as a NumPy integer scalar (np.arange(n)[i], rng.integers(...), SeedSequence.generate_state()), not as a built-in int
+        c["cfg"]["random_state"] = getattr(np, case["rs_type"])(random_state)
     c["rng_record"] = record
     c["post_ops"] = True
     if scen:
@@ -185,6 +188,8 @@ def cases(seed, tier):
             c["cfg"]["random_state"] = 0  # a falsy but perfectly valid seed
         if k % 5 == 4:
             c["rerun_arm"] = True
+        if k % 4 == 1:
+            c["rs_type"] = r.choice(["int64", "int32", "uint32"])
         out.append(c)
     return out
 
